@@ -1777,6 +1777,9 @@ def fuse_activation_function_with_prev(op, arch, nng):
     if op.activation_lut is not None:
         prev_op.set_activation_lut(op.activation_lut)
     # Bypass op
+    if prev_op.ofm is not None and prev_op.ofm.force_linear_format:
+        # e.g. a Transpose: it is realised by swapping the strides of its OFM, which only works in linear format
+        ofm.force_linear_format = True
     prev_op.set_output_tensor(ofm)
     DebugDatabase.add_optimised(prev_op, prev_op)
     return op
